@@ -18,9 +18,12 @@ package connectconformance
 
 //@ mapvalues map[string]func(string, *conformancev1.ClientCompatResponse, error): v != nil
 //@ ghost cbCount: string -> int
+// cbTotal[0]: callback invocations altogether
+//@ ghost cbTotal: int -> int
 //@ func clientProcessRunner.pendingOps
-//@   modifies cbCount
+//@   modifies cbCount, cbTotal
 //@   ensures cbCount == old(cbCount)[arg1 := old(cbCount[arg1]) + 1] //# arg1: the name the callback is invoked with
+//@   ensures cbTotal[0] == old(cbTotal[0]) + 1
 
 // abortN[p]: how often abort was called on controller p
 //@ ghost abortN: processController -> int
@@ -71,6 +74,10 @@ package connectconformance
 //@   ensures @dup !atlock(c.closedSend, 1) && atlock(has(c.pendingOps, req.TestName), 2) ==> err != nil && has(c.pendingOps, req.TestName) &&
 //@        c.pendingOps[req.TestName] == atlock(c.pendingOps[req.TestName], 2)
 //@   ensures @undone !atlock(c.closedSend, 1) && !atlock(has(c.pendingOps, req.TestName), 2) && err != nil ==> !has(c.pendingOps, req.TestName)
+//@   //# a failed write whose request was nevertheless answered (the reader took the callback meanwhile) is a successful send
+//@   ensures @answered !atlock(has(c.pendingOps, req.TestName), 3) ==> err == nil
+//@   //# the first recorded failure is never overwritten: the error cell is only written by compare-and-swap from nil
+//@   assert_at "c.err.Store("#*: false
 //@   assert_at "c.pendingMu.Unlock()"#1: !exists ==> has(c.pendingOps, req.TestName) && c.pendingOps[req.TestName] == whenDone
 
 // consumeOutput: reads responses until the stream ends or misbehaves. Each response takes its
@@ -82,7 +89,7 @@ package connectconformance
 //@ func (*clientProcessRunner).consumeOutput$1
 //@   option rangedelete
 //@   requires c != nil && c.proc != nil && c.proc.stdin != nil && c.proc.processController != nil && !held[c.sendMu] && !held[c.pendingMu]
-//@   modifies held, mapof(clientProcessRunner.pendingOps), atomicPtr, atomicBoolV, clientProcessRunner.closedSend, cbCount, abortN
+//@   modifies held, mapof(clientProcessRunner.pendingOps), atomicPtr, atomicBoolV, clientProcessRunner.closedSend, cbCount, cbTotal, abortN
 //@   ensures @closed c.closedSend
 //@   //# progress: on an abnormal end the process is aborted BEFORE closeSend takes sendMu - a sender blocked in a write to the dead
 //@   //# client holds sendMu and is only released by the abort; the other order can wait forever
@@ -98,7 +105,7 @@ package connectconformance
 //@ func (*clientProcessRunner).consumeOutput
 //@   requires c != nil && c.proc != nil && c.proc.stdin != nil && c.proc.stdout != nil && c.proc.processController != nil && !held[c.sendMu] && !held[c.pendingMu]
 //@   requires c.done != nil && !chanClosed[c.done]
-//@   modifies held, mapof(clientProcessRunner.pendingOps), atomicPtr, atomicBoolV, clientProcessRunner.closedSend, cbCount, abortN, chanClosed, rdPos, map[string]struct{}, *error, conformancev1.ClientCompatResponse.*, conformancev1.ServerCompatResponse.*
+//@   modifies held, mapof(clientProcessRunner.pendingOps), atomicPtr, atomicBoolV, clientProcessRunner.closedSend, cbCount, cbTotal, abortN, chanClosed, rdPos, rdMsgN, map[string]struct{}, *error, conformancev1.ClientCompatResponse.*, conformancev1.ServerCompatResponse.*
 //@   ensures @done chanClosed[c.done]
 //@   ensures @closed c.closedSend
 //@   ensures @drained forall k string :: !has(c.pendingOps, k)
@@ -106,3 +113,5 @@ package connectconformance
 //@   assert_at "action(resp.TestName, resp, nil)": !has(c.pendingOps, resp.TestName) && !held[c.pendingMu]
 //@   loop 0: invariant !held[c.sendMu] && !held[c.pendingMu] && reasonForReturn == nil && testCaseNames != nil && !chanClosed[c.done]
 //@           invariant forall k string :: cbCount[k] >= atpre(cbCount[k])
+//@           //# every response read so far has been handed to a callback: a response nobody waits for (unknown or already answered) ends the loop
+//@           invariant cbTotal[0] - atpre(cbTotal[0]) == rdMsgN[0] - atpre(rdMsgN[0])
